@@ -400,6 +400,9 @@ def run(chk, replay=None):
                                   f"meson_radius={rec['d']}): clause '{c}' rejected; occurring phase-space classes at rho {rec['xrho']}, in EnergyDependentWidth.phsp_factor "
                                   f"{rec['xwidth']}, L in widths {rec['lwidth']} / form factors {rec['lff']}, radii {rec['dwidth']} / {rec['dff']}, sums {rec['sums']}",
                                   {"kind": "flow", "job": job})
+            elif rec["k"] == "compose" and names == {"compose-maps"}:
+                chk.spec_drift(f"{cls}.formulate(parametrize=False) (n={rec['n']}) does not contain one symbol per K_ij / P_i / rho_i slot "
+                               f"(K slots {rec['kmap']}, P {rec['pmap']}, rho {rec['rmap']}): composition not checked for it")
             elif rec["k"] == "compose":
                 job = [rec["cls"], rec["n"], rec["np"], bool(rec["flag"]), rec["L"], rec["d"], rec["X"], chk.seed]
                 if root_of(rec):
